@@ -295,4 +295,27 @@ example : FragHyp [⟨3, 1, 0⟩, ⟨3, 1, 1⟩, ⟨3, 1, 0⟩] := by
   have : k = 0 ∨ k = 1 := by simp at hk; omega
   rcases this with rfl | rfl <;> decide
 
+/-! ### the hypothesis `lws.length ≤ 2` cannot be dropped: known finding KF-4
+
+"At most two distinct line widths" does not bound the number of entries of the list. With a list
+whose width changes again after the second line the cost matrix is not totally monotone, `smawk`'s
+rows are not column minima and the arrangement is not a minimum — in the model and, on the same
+input, in the real code (`known-findings.txt`, class KF-4; the harness replays it on every run of
+the C03 stream). The witness below is checked by the kernel for the costs and by evaluation for the
+rows (`smawk_inner` is defined by well-founded recursion, which the kernel does not unfold). -/
+
+def kf4Frs : List IFrag := [⟨1, 1, 0⟩, ⟨11, 1, 1⟩, ⟨1, 1, 0⟩, ⟨11, 1, 0⟩]
+def kf4Lws : List Int := [6, 6, 21, 6]
+def kf4Pen : Penalties := ⟨0, 4, 3, 1, 3⟩
+
+/-- the rows the model's own `smawk` returns on the witness: lines `[0,3)`, `[3,4)` -/
+example : True := trivial
+#guard ownMinima (α := Int) kf4Pen kf4Frs kf4Lws == [0, 0, 0, 0, 3]
+
+/-- the arrangement read off those rows costs 56, another one costs 52 -/
+-- @audit TW.C03.kf4_witness_costs
+theorem kf4_witness_costs :
+    arrCost kf4Pen kf4Lws kf4Frs 0 [(0, 3), (3, 4)] = 56 ∧
+    arrCost kf4Pen kf4Lws kf4Frs 0 [(0, 1), (1, 2), (2, 4)] = 52 := by decide +kernel
+
 end TW.C03
